@@ -479,6 +479,14 @@ def mk_b58(code, pmode, psel, cmode, sel, sel2, n, hp, raw):
         payload = mk_hash(max(1, [19, 21, 31, 32, 33, 34][sel % 6]), *hp)
     else:                                            # something valid under a *different* own prefix kind: kinds apart
         payload = [mk_hash(20, *hp), key_payloads(sel, raw), bip32_bodies(sel, sel2 % 6, raw)][sel2 % 3]
+    if attr.startswith("bip") and len(payload) == 74 and n % 4 == 0:
+        # a well-formed extended key whose body carries, somewhere inside, the version bytes of ANOTHER of the network's
+        # checksummed kinds (another extended-key flavour, or the WIF / address byte run): the version is what the text
+        # starts with, not something it contains
+        others = [pf[a] for a in PREFIX_ATTRS if pf[a] is not None and pf[a] != prefix]
+        plant = others[sel % len(others)]
+        at = [13, 14, 9, 5, 20, 41 - len(plant)][sel2 % 6]          # inside the chain code, child number, fingerprint
+        payload = payload[:at] + plant + payload[at + len(plant):]
     return {"net": code, "text": refenc.b58check_encode(prefix + payload)}
 
 
